@@ -15,7 +15,7 @@ ASSUMPTIONS = ["clingo's ground/solve contract as in C01", "external handling: a
 
 def rule_cases(seed, n):
     r = random.Random(seed)
-    return [gen.gen_core_prog(r, ATOMS2 if i % 3 else ATOMS3, True, neg_atoms=(i % 5 == 0)) for i in range(n)]
+    return gen.future_sign_cases() + [gen.gen_core_prog(r, ATOMS2 if i % 3 else ATOMS3, True, neg_atoms=(i % 5 == 0)) for i in range(n)]
 
 def correspondence(ctx):
     cases = rule_cases(ctx.seed * 23 + 1, 120 if ctx.tier == "quick" else 1500)
